@@ -68,6 +68,11 @@ pub struct LoopCase {
     pub frequency: u64,
     /// Validators that never run (crashed for good / silent Byzantine); their weight is at most f.
     pub down: Vec<bool>,
+    /// Byzantine by omission and duplication (their weight, together with `down`, is at most f): they run as real
+    /// replicas, but once the network has healed nobody receives their proposals, and the network keeps
+    /// re-delivering the newest new-view message of each of them to everybody, several times per view timeout.
+    #[serde(default)]
+    pub mute: Vec<bool>,
     pub ops: Vec<LoopOp>,
     /// Granularity of the clock in the healed phase (ms).
     pub heal_tick_ms: u32,
@@ -85,20 +90,28 @@ pub fn gen_case(ch: &mut Choices, quick: bool) -> LoopCase {
     let total: u64 = weights.iter().sum();
     let f = (total - 1) / 5;
     let mut down = vec![false; n];
-    if f > 0 && ch.chance(2, 3) {
+    let mut mute = vec![false; n];
+    // the faulty budget goes to silent validators, to mute ones (Byzantine by omission and duplication), or stays unused
+    let mode = if f > 0 { ch.below(3) } else { 3 };
+    if mode <= 1 {
         let mut left = f;
         for i in ch.perm(n) {
             if weights[i] <= left && ch.chance(3, 4) {
-                down[i] = true;
+                if mode == 0 {
+                    down[i] = true;
+                } else {
+                    mute[i] = true;
+                    leaders[i] = true;
+                }
                 left -= weights[i];
             }
         }
     } else if f == 0 && n >= 6 {
         weights = vec![1; n];
     }
-    // at least one leader among the nodes that run
-    if !(0..n).any(|i| leaders[i] && !down[i]) {
-        let i = (0..n).find(|i| !down[*i]).unwrap();
+    // at least one leader among the correct nodes that run
+    if !(0..n).any(|i| leaders[i] && !down[i] && !mute[i]) {
+        let i = (0..n).find(|i| !down[*i] && !mute[*i]).unwrap();
         leaders[i] = true;
     }
     let weighted = ch.chance(1, 4);
@@ -133,7 +146,7 @@ pub fn gen_case(ch: &mut Choices, quick: bool) -> LoopCase {
     }
     let heal_tick_ms = ch.pick(&[500u32, 250, 1000, 1999, 2000, 777]);
     let heal_skew_ms = (0..n).map(|_| if ch.chance(1, 2) { 0 } else { ch.below(VIEW_TIMEOUT_MS as usize) as u32 }).collect();
-    LoopCase { weights, leaders, weighted, frequency, down, ops, heal_tick_ms, heal_skew_ms }
+    LoopCase { weights, leaders, weighted, frequency, down, mute, ops, heal_tick_ms, heal_skew_ms }
 }
 
 struct Up {
@@ -174,6 +187,11 @@ pub struct LoopWorld {
     pub lost: u64,
     /// Whether the "persist, then send" observation is evaluated (vote oracle only).
     check_durable: bool,
+    /// Validators that are Byzantine by omission / duplication, their newest new-view message, and whether the
+    /// healed phase (in which they act) has begun.
+    mute: Vec<bool>,
+    mute_new_view: Vec<Option<Msg>>,
+    healed: bool,
 }
 
 #[derive(Debug, Clone, Copy, PartialEq)]
@@ -197,7 +215,7 @@ impl LoopWorld {
         let spec = CommitteeSpec { weights: case.weights.clone(), leaders: case.leaders.clone(), weighted: case.weighted, frequency: case.frequency, key_offset: 0, first_block: 0 };
         let committee = spec.build();
         let n = spec.n();
-        let mut w = LoopWorld { committee, nodes: vec![], groups: vec![0; n], lose: None, log: vec![], errors: vec![], max_view: 0, delivered: 0, lost: 0, check_durable: false };
+        let mut w = LoopWorld { committee, nodes: vec![], groups: vec![0; n], lose: None, log: vec![], errors: vec![], max_view: 0, delivered: 0, lost: 0, check_durable: false, mute: (0..n).map(|i| case.mute.get(i).copied().unwrap_or(false)).collect(), mute_new_view: vec![None; n], healed: false };
         for i in 0..n {
             if case.down[i] {
                 w.nodes.push(None);
@@ -289,11 +307,18 @@ impl LoopWorld {
         self.max_view = self.max_view.max(view_of(&msg));
         self.log.push(Emitted { from, msg: msg.clone() });
         let kind = kind_bit(kind_of(&msg));
+        if self.mute[from] && kind_of(&msg) == Kind::NewView {
+            self.mute_new_view[from] = Some(msg.clone());
+        }
         for j in 0..self.nodes.len() {
             if self.nodes[j].is_none() {
                 continue;
             }
             if j != from {
+                if self.healed && self.mute[from] && kind_of(&msg) == Kind::Proposal {
+                    self.lost += 1;
+                    continue;
+                }
                 if self.groups[from] != self.groups[j] {
                     self.lost += 1;
                     continue;
@@ -599,7 +624,23 @@ impl LoopWorld {
     fn leader_is_down(&self, view: u64) -> bool {
         let k = self.committee.schedule.view_leader(validator::ViewNumber(view));
         let idx = self.committee.schedule.keys().position(|x| *x == k).unwrap();
-        self.nodes[idx].is_none()
+        self.nodes[idx].is_none() || self.mute[idx]
+    }
+
+    /// Durable heights of the correct nodes.
+    fn correct_heights(&self) -> Vec<u64> {
+        self.running().iter().filter(|i| !self.mute[**i]).map(|i| self.nodes[*i].as_ref().unwrap().engine.durable_next()).collect()
+    }
+
+    /// The network delivers the newest new-view message of every mute validator to everybody once more.
+    fn duplicate_mute_new_views(&mut self) {
+        for m in 0..self.nodes.len() {
+            let Some(nv) = self.mute_new_view[m].clone() else { continue };
+            for j in self.running() {
+                let node = self.nodes[j].as_mut().unwrap();
+                Self::hand_over(node, &nv, &mut self.delivered, &mut self.lost);
+            }
+        }
     }
 
     /// Healed phase. Returns the virtual time (in view timeouts, rounded up) and the number of views with a
@@ -607,7 +648,9 @@ impl LoopWorld {
     async fn heal(&mut self, case: &LoopCase, st: &mut Stats) -> Result<(), String> {
         self.groups = vec![0; self.nodes.len()];
         self.lose = None;
-        let hs = self.heights();
+        self.healed = true;
+        let any_mute = self.mute.iter().any(|m| *m);
+        let hs = self.correct_heights();
         let views_before = self.max_view;
         for i in self.running() {
             {
@@ -630,7 +673,7 @@ impl LoopWorld {
             }
         }
         self.route().await;
-        let h0 = self.heights();
+        let h0 = self.correct_heights();
         if hs.iter().collect::<std::collections::BTreeSet<_>>().len() >= 2 {
             st.class("heights_differ_at_heal");
         }
@@ -646,7 +689,7 @@ impl LoopWorld {
             if let Some(e) = self.errors.first() {
                 return Err(e.clone());
             }
-            let hs = self.heights();
+            let hs = self.correct_heights();
             let silent_views = (views_before + 1..=self.max_view).filter(|v| self.leader_is_down(*v)).count() as u64;
             if hs.iter().all(|h| *h > target) {
                 st.max("max_view_timeouts_to_progress", elapsed.div_ceil(VIEW_TIMEOUT_MS as u64));
@@ -660,7 +703,16 @@ impl LoopWorld {
                     self.max_view
                 ));
             }
-            self.advance(None, tick);
+            if any_mute {
+                // duplicates arrive at least twice per tick (and therefore several times per view timeout)
+                self.advance(None, tick / 2);
+                self.duplicate_mute_new_views();
+                self.route().await;
+                self.advance(None, tick - tick / 2);
+                self.duplicate_mute_new_views();
+            } else {
+                self.advance(None, tick);
+            }
             elapsed += tick as u64;
         }
     }
@@ -755,6 +807,9 @@ pub fn check(case: &LoopCase, st: &mut Stats, oracle: Oracle) -> Result<(), Stri
     if case.down.iter().any(|d| *d) {
         st.class("silent_validator");
     }
+    if case.mute.iter().any(|d| *d) {
+        st.class("mute_validator_with_duplicated_new_views");
+    }
     if case.ops.iter().any(|o| matches!(o, LoopOp::CrashInWrite { .. })) {
         st.class("crash_inside_durable_write_armed");
     }
@@ -777,4 +832,4 @@ pub fn check(case: &LoopCase, st: &mut Stats, oracle: Oracle) -> Result<(), Stri
     result
 }
 
-pub const DESCRIPTION: &str = "whole replicas: every validator that runs is a real bft::Config::run (real StateMachine::run loop with its view timer and the view-0 bootstrap, real proposer task, real create_input_channel) over a real EngineManager; the harness is the network and the operator: generated prefix of {clock ticks for all / for one node (drift), partitions, periodic loss by message kind, held-back and reversed backlogs, replays of old copies, kill at a quiescent point, kill inside the k-th next durable write (applied / lost), restart from durable state, stalled persistence, block fetching}, with up to f weight of validators silent for good; then the network heals (reliable delivery, block fetching from the most advanced node, clocks ticking with generated granularity and per-node phase offsets)";
+pub const DESCRIPTION: &str = "whole replicas: every validator that runs is a real bft::Config::run (real StateMachine::run loop with its view timer and the view-0 bootstrap, real proposer task, real create_input_channel) over a real EngineManager; the harness is the network and the operator: generated prefix of {clock ticks for all / for one node (drift), partitions, periodic loss by message kind, held-back and reversed backlogs, replays of old copies, kill at a quiescent point, kill inside the k-th next durable write (applied / lost), restart from durable state, stalled persistence, block fetching}, with up to f weight of validators silent for good or Byzantine by omission and duplication (real replicas whose proposals nobody receives once the network has healed and whose newest new-view message the network keeps re-delivering to everybody, at least twice per tick); then the network heals (reliable delivery, block fetching from the most advanced node, clocks ticking with generated granularity and per-node phase offsets)";
